@@ -3,7 +3,7 @@ from __future__ import annotations
 
 import ast
 
-from sa.cfg import CFG
+from sa.cfg import CFG, edges_establishing
 from sa.dataflow import FnFlow
 from sa.model import AnalysisError, Program, norm, walk_no_nested
 from sa.report import Results
@@ -64,8 +64,17 @@ def run(prog: Program) -> Results:
                         f"in {key} `{norm(n.ast)}` is reachable without first excluding bool (bool is a subclass of int): "
                         f"True/False would be rendered as 1/0 or as an integer literal")
         for n, v, lab in both:
-            res.add("R-C13-1", (key, "bool and int share an arm"), f.loc(n.ast),
-                    f"in {key} `{norm(n.ast)}` sends bool and int to the same arm")
+            # a shared arm is harmless when it only hands the value to the dispatcher that is checked here as well
+            # (`Primitive(value=v)`, whose __new__ selects the class through _primitive_cls_from_value)
+            arm = _arm_text(cfg, n, lab)
+            new_m = prog.method("Primitive", "__new__")
+            dispatches = new_m is not None and any(isinstance(c, ast.Call) and callee(c) == "_primitive_cls_from_value" for c in ast.walk(new_m.node))
+            delegated = key != "_primitive_cls_from_value" and dispatches and (
+                f"Primitive(value={v})" in arm or f"Primitive({v})" in arm or f"_primitive_cls_from_value({v})" in arm)
+            r1.ob(delegated, {"function": key, "shared_arm": arm[:80], "delegates_to_dispatcher": delegated})
+            if not delegated:
+                res.add("R-C13-1", (key, "bool and int share an arm"), f.loc(n.ast),
+                        f"in {key} `{norm(n.ast)}` sends bool and int to the same arm")
 
     # ---------------------------------------------------------------- R-C13-2
     r2 = res.rule("R-C13-2", "non-raw string payloads pass the escaper on every rendering path; raw_string=True is set only by "
@@ -80,7 +89,9 @@ def run(prog: Program) -> Results:
                 continue
             r2.instances += 1
             ex = flow.expand(rt.ast.value, at=rt)
-            bad = _unescaped_uses(ex, fieldname)
+            raw_edges = edges_establishing(flow.cfg, lambda a, t: dotted(a) == "self.raw_string" and t is True)
+            on_raw_side = bool(raw_edges) and flow.cfg.all_paths_pass(rt, cut_edges=raw_edges)  # `if self.raw_string: return …`
+            bad = [] if on_raw_side else _unescaped_uses(ex, fieldname)
             r2.ob(not bad, {"function": key, "return": norm(ex)[:120]})
             for b in bad:
                 res.add("R-C13-2", (key, "payload reaches output unescaped"), f.loc(rt.ast),
